@@ -40,7 +40,7 @@ def run(chk):
             b_ok += 1
             firsts.add(hash(json.dumps(o["h"])))
     if a_ok < 500 or b_ok < 500:
-        raise ToolError("vacuity: A=%d B=%d successful sessions" % (a_ok, b_ok))
+        chk.vacuity("vacuity: A=%d B=%d successful sessions" % (a_ok, b_ok))
     chk.cov["distinct_nontrivial"] = len(firsts)
     chk.assumptions += ["message equality is judged on a 128-bit digest of the canonical value tree plus the library's PartialEq flag",
                         "Clean is deliberately conservative (any duplicate key in any list switches the byte-equality demand off)"]
